@@ -45,6 +45,9 @@ type t2Bridge struct {
 	// per accepted connection
 	conns []*t2BridgeConn
 	down  []byte // what the bridge writes on every connection it accepts
+	// closeAfterWrite: the bridge closes the connection as soon as it has written everything (as
+	// server.go's proxy() does when tor closes first)
+	closeAfterWrite bool
 }
 
 type t2BridgeConn struct {
@@ -155,6 +158,9 @@ func (b *t2Bridge) acceptLoop() {
 					return
 				}
 			}
+			if b.closeAfterWrite {
+				c.Close()
+			}
 		}()
 	}
 }
@@ -172,17 +178,18 @@ func (b *t2Bridge) snapshot() []t2BridgeConn {
 // ---- proxy stand-in: one carrier = one peer + one WebSocket to the server ---------------------------
 
 const (
-	t2None       = iota
-	t2CutClean          // the proxy closes its WebSocket properly and the data channel closes
-	t2CutAbrupt         // the proxy dies: TCP connection to the server torn without a close frame
-	t2CutHalf           // as abrupt, after half of the message has been forwarded
-	t2DeadOnUse         // the peer is already dead when the client first writes to it
-	t2Freeze            // the proxy stops forwarding in both directions and keeps everything open
-	t2PopDelay          // no standby proxy for 2 s: the replacement arrives late
+	t2None      = iota
+	t2CutClean  // the proxy closes its WebSocket properly and the data channel closes
+	t2CutAbrupt // the proxy dies: TCP connection to the server torn without a close frame
+	t2CutHalf   // as abrupt, after half of the message has been forwarded
+	t2DeadOnUse // the peer is already dead when the client first writes to it
+	t2Freeze    // the proxy stops forwarding in both directions and keeps everything open
+	t2PopDelay  // no standby proxy for 2 s: the replacement arrives late
+	t2Blackhole // the proxy swallows everything from this message on and dies a second later
 	t2nFaultKind
 )
 
-var t2FaultName = []string{"none", "cut-clean", "cut-abrupt", "cut-inside-message", "dead-on-first-use", "freeze", "late-replacement"}
+var t2FaultName = []string{"none", "cut-clean", "cut-abrupt", "cut-inside-message", "dead-on-first-use", "freeze", "late-replacement", "blackhole-1s-then-cut"}
 
 type t2Fault struct {
 	kind int
@@ -244,9 +251,12 @@ func (c *t2Carrier) Send(b []byte) error {
 	n := c.nUp
 	frozen := c.frozen
 	hit := c.fault.kind != t2None && c.fault.up && c.fault.idx == n
-	if hit && c.fault.kind == t2Freeze {
+	if hit && (c.fault.kind == t2Freeze || c.fault.kind == t2Blackhole) {
 		c.frozen = true
 		frozen = true
+		if c.fault.kind == t2Blackhole {
+			time.AfterFunc(time.Second, func() { c.kill(true) })
+		}
 	}
 	c.mu.Unlock()
 	if frozen {
@@ -290,8 +300,11 @@ func (c *t2Carrier) pump() {
 			c.nDown++
 			k := c.nDown
 			hit := c.fault.kind != t2None && !c.fault.up && c.fault.idx == k
-			if hit && c.fault.kind == t2Freeze {
+			if hit && (c.fault.kind == t2Freeze || c.fault.kind == t2Blackhole) {
 				c.frozen = true
+				if c.fault.kind == t2Blackhole {
+					time.AfterFunc(time.Second, func() { c.kill(true) })
+				}
 			}
 			frozen := c.frozen
 			c.mu.Unlock()
@@ -338,8 +351,8 @@ type t2Collector struct {
 }
 
 func (tc *t2Collector) Collect() (*WebRTCPeer, error) { return nil, errors.New("not used") }
-func (tc *t2Collector) Melted() <-chan struct{}        { return tc.melt }
-func (tc *t2Collector) End()                           { tc.once.Do(func() { close(tc.melt) }) }
+func (tc *t2Collector) Melted() <-chan struct{}       { return tc.melt }
+func (tc *t2Collector) End()                          { tc.once.Do(func() { close(tc.melt) }) }
 
 func (tc *t2Collector) Pop() *WebRTCPeer {
 	select {
@@ -419,7 +432,7 @@ func firstDiffT2(a, b []byte) int {
 	return i
 }
 
-func t2Run(faults []t2Fault, upSize, downSize int, extraCarriers int) *t2Result {
+func t2Run(faults []t2Fault, upSize, downSize int, extraCarriers int, bridgeCloses bool) *t2Result {
 	res := &t2Result{}
 	up, down := t2Payload(1, upSize), t2Payload(2, downSize)
 	bridge, err := startT2Bridge(down)
@@ -428,6 +441,7 @@ func t2Run(faults []t2Fault, upSize, downSize int, extraCarriers int) *t2Result 
 		return res
 	}
 	defer bridge.ln.Close()
+	bridge.closeAfterWrite = bridgeCloses
 	tc := &t2Collector{bridge: bridge, faults: faults, melt: make(chan struct{}), maxPeer: len(faults) + extraCarriers}
 	pconn, sess, err := newSession(tc)
 	if err != nil {
@@ -450,7 +464,8 @@ func t2Run(faults []t2Fault, upSize, downSize int, extraCarriers int) *t2Result 
 		res.infra = err
 		return res
 	}
-	defer stream.Close()
+	// (the harness tears the session down before the stream: Stream.Close waits for its FIN frame to be
+	// written, which blocks while nothing can be sent)
 	got := make([]byte, 0, downSize)
 	var rerr, werr error
 	var gotMu sync.Mutex
@@ -565,8 +580,9 @@ func TestVerifEnumC01T2(t *testing.T) {
 	logf := func(format string, a ...interface{}) { fmt.Fprintf(os.Stderr, "[c01t2] "+format+"\n", a...) }
 
 	type scenario struct {
-		faults   []t2Fault
-		up, down int
+		faults       []t2Fault
+		up, down     int
+		bridgeCloses bool
 	}
 	var scen []scenario
 	sizes := [][2]int{{2000, 3000}, {300000, 200000}}
@@ -589,30 +605,39 @@ func TestVerifEnumC01T2(t *testing.T) {
 	singles = append(singles, t2Fault{kind: t2DeadOnUse}, t2Fault{kind: t2PopDelay})
 	for _, f := range singles {
 		for _, sz := range sizes {
-			scen = append(scen, scenario{[]t2Fault{f}, sz[0], sz[1]})
+			scen = append(scen, scenario{[]t2Fault{f}, sz[0], sz[1], false})
 		}
 	}
 	// the staleness path costs 20 s of real time per fault: two scenarios (more in thorough)
-	scen = append(scen, scenario{[]t2Fault{{t2Freeze, true, 3}}, 300000, 200000}, scenario{[]t2Fault{{t2Freeze, false, 3}}, 300000, 200000})
+	scen = append(scen, scenario{[]t2Fault{{t2Freeze, true, 3}}, 300000, 200000, false}, scenario{[]t2Fault{{t2Freeze, false, 3}}, 300000, 200000, false})
 	if thorough {
-		scen = append(scen, scenario{[]t2Fault{{t2Freeze, true, 1}}, 2000, 3000}, scenario{[]t2Fault{{t2Freeze, false, 10}, {t2CutAbrupt, true, 3}}, 300000, 200000})
+		scen = append(scen, scenario{[]t2Fault{{t2Freeze, true, 1}}, 2000, 3000, false}, scenario{[]t2Fault{{t2Freeze, false, 10}, {t2CutAbrupt, true, 3}}, 300000, 200000, false})
 	}
+	// the bridge writes and closes at once (tor closed first): what it wrote must still arrive although the
+	// proxy carrying the tail swallows it and dies
+	for k := 1; k <= 6; k++ {
+		scen = append(scen, scenario{[]t2Fault{{t2Blackhole, false, k}}, 0, 3000, true}, scenario{[]t2Fault{{t2CutAbrupt, false, k}}, 0, 3000, true})
+	}
+	for _, k := range []int{1, 10, 40} {
+		scen = append(scen, scenario{[]t2Fault{{t2Blackhole, false, k}}, 0, 200000, true}, scenario{[]t2Fault{{t2Blackhole, true, k}}, 0, 200000, true})
+	}
+	scen = append(scen, scenario{[]t2Fault{{}}, 0, 200000, true}, scenario{[]t2Fault{{t2Blackhole, false, 3}}, 300000, 200000, false}, scenario{[]t2Fault{{t2Blackhole, true, 10}}, 300000, 200000, false})
 	pairs := []t2Fault{{t2CutClean, true, 3}, {t2CutAbrupt, false, 3}, {t2CutHalf, true, 3}, {kind: t2DeadOnUse}, {t2CutHalf, false, 1}}
 	for _, a := range pairs {
 		for _, b := range pairs {
-			scen = append(scen, scenario{[]t2Fault{a, b}, 300000, 200000})
+			scen = append(scen, scenario{[]t2Fault{a, b}, 300000, 200000, false})
 		}
 	}
 	if thorough {
 		for _, a := range pairs {
 			for _, b := range pairs {
 				for _, c := range pairs[:3] {
-					scen = append(scen, scenario{[]t2Fault{a, b, c}, 300000, 200000})
+					scen = append(scen, scenario{[]t2Fault{a, b, c}, 300000, 200000, false})
 				}
 			}
 		}
 	}
-	r.Begin("end-to-end", fmt.Sprintf("real client session (newSession: dialContext, RedialPacketConn, kcp-go, smux) <-> relay <-> real server listener over loopback WebSockets; %d scenarios: fault of the first carrier(s) in {clean cut, abrupt cut, cut inside a message} x {up, down} x message index %v, peer dead on first use, replacement 2 s late, frozen carrier (staleness timeout), ordered pairs of faults on consecutive carriers; payload sizes up/down %v; a working carrier always follows; oracle: the bridge reads exactly the application's bytes and the application exactly the bridge's, as one connection, and the stream completes", len(scen), idxs, sizes))
+	r.Begin("end-to-end", fmt.Sprintf("real client session (newSession: dialContext, RedialPacketConn, kcp-go, smux) <-> relay <-> real server listener over loopback WebSockets; %d scenarios: fault of the first carrier(s) in {clean cut, abrupt cut, cut inside a message} x {up, down} x message index %v, peer dead on first use, replacement 2 s late, frozen carrier (staleness timeout), a carrier that swallows everything and dies a second later, the bridge closing right after its last write, ordered pairs of faults on consecutive carriers; payload sizes up/down %v; a working carrier always follows; oracle: the bridge reads exactly the application's bytes and the application exactly the bridge's, as one connection, and the stream completes", len(scen), idxs, sizes))
 	for _, sc := range scen {
 		if !r.Mine() {
 			continue
@@ -625,8 +650,13 @@ func TestVerifEnumC01T2(t *testing.T) {
 			names = append(names, f.String())
 		}
 		desc := fmt.Sprintf("faults [%s] up %d B down %d B", strings.Join(names, ", "), sc.up, sc.down)
+		if sc.bridgeCloses {
+			desc += ", the bridge closes after writing"
+		}
 		r.Case("e2e|"+desc, true)
-		res := t2Run(sc.faults, sc.up, sc.down, 2)
+		t0 := time.Now()
+		res := t2Run(sc.faults, sc.up, sc.down, 2, sc.bridgeCloses)
+		logf("%s: %v, %d carriers", desc, time.Since(t0).Round(time.Millisecond), res.carriers)
 		if res.infra != nil {
 			r.Incomplete("loopback trouble: " + res.infra.Error())
 			continue
@@ -638,7 +668,7 @@ func TestVerifEnumC01T2(t *testing.T) {
 		if res.timedOut {
 			rep := 0
 			for i := 0; i < 3; i++ {
-				r2 := t2Run(sc.faults, sc.up, sc.down, 2)
+				r2 := t2Run(sc.faults, sc.up, sc.down, 2, sc.bridgeCloses)
 				if r2.sig != "" {
 					r.Fail(r2.sig, r2.msg, desc)
 					break
@@ -732,10 +762,10 @@ func t2RunWith(faults []t2Fault, upSize, downSize, extra int, wait time.Duration
 	g := append([]byte(nil), got...)
 	gotMu.Unlock()
 	snap := bridge.snapshot()
-	stream.Close()
 	tc.End()
 	pconn.Close()
 	sess.Close()
+	stream.Close()
 	tc.mu.Lock()
 	for _, c := range tc.handed {
 		c.kill(false)
